@@ -39,7 +39,8 @@ EXTENDS Naturals, Sequences, FiniteSets, TLC
 
 CONSTANTS Eager,      \* TRUE: sequential part (one caller, server answers on demand); FALSE: two threads + environment
           MaxOps,     \* Eager only: calls before the final drop
-          Fixes       \* subset of {"shutdown", "chunkresume", "atomicrelease"}: repaired designs; {} = the code as found
+          Fixes       \* subset of {"shutdown", "chunkresume", "atomicrelease", "closeunder"}: repaired designs; {} = the code as found
+                      \* (names "break:..." are design-level mutants used as canaries: TLC must refute the named rule)
 
 Threads == {"a", "b"}
 ReadOps == {"read", "readn", "read1n", "stream"}
@@ -104,7 +105,7 @@ Complete(m, r, k) ==
 \* an exception leaves the read machinery and reaches the API call itself
 OpRaise(m) ==
   LET e == m.l.exc IN
-  IF m.l.op = "drain" /\ Kind(e) = "urllib3" THEN Complete(m, "ok", "none")           \* drain_conn swallows HTTPError / OSError
+  IF m.l.op = "drain" /\ (Kind(e) = "urllib3" \/ "break:drainswallow" \in Fixes) THEN Complete(m, "ok", "none")   \* drain_conn swallows HTTPError / OSError
   ELSE IF m.l.op = "stream" THEN Complete([m EXCEPT !.s.gen = "none"], "err:" \o e, Kind(e))
   ELSE Complete(m, "err:" \o e, Kind(e))
 
@@ -179,6 +180,7 @@ EagerIo(s, need, eof) ==
   ELSE IF s.shut \/ s.pclosed THEN EagerIo([s EXCEPT !.io = "recv"], need, TRUE)
   ELSE IF s.fedn = 1 THEN
       IF s.sv = "boom" THEN [s |-> [s EXCEPT !.fedn = 2, !.io = "recv", !.nboom = 1], eof |-> eof, bad |-> "Interrupt"]
+      ELSE IF s.sv = "reset" THEN [s |-> [s EXCEPT !.fedn = 2, !.io = "recv"], eof |-> eof, bad |-> "ProtocolError"]   \* ECONNRESET
       ELSE EagerIo([s EXCEPT !.fedn = 2, !.io = "recv", !.pclosed = F2Closes(s),
                              !.rcv2 = IF F2(s) = "none" THEN "no" ELSE F2(s)], need, eof)
   ELSE [s |-> [s EXCEPT !.io = "recv"], eof |-> eof, bad |-> "Hang"]
@@ -214,11 +216,11 @@ RawKind(o) == IF o \in {"read", "drain"} THEN "read" ELSE IF o = "read1n" THEN "
 AfterRaw(m, h) ==
   LET k == RawKind(m.l.op)
       m1 == [m EXCEPT !.s = h.s, !.l.data = h.data] IN
-  IF h.hexc = "AttributeError" THEN Unclean(m1, "AttributeError")
+  IF h.hexc = "AttributeError" THEN Unclean(m1, IF "closeunder" \in Fixes THEN "ProtocolError" ELSE "AttributeError")
   ELSE IF h.hexc # "none" THEN Unclean(m1, "ProtocolError")
   ELSE IF k # "read" /\ h.data = 0 THEN
       LET m2 == [m1 EXCEPT !.s = OrigClose(h.s)] IN
-      IF h.s.ulen > 0 /\ h.s.fr = "cl" THEN Unclean(m2, "ProtocolError") ELSE Clean(m2)
+      IF h.s.ulen > 0 /\ h.s.fr = "cl" /\ "break:noincomplete" \notin Fixes THEN Unclean(m2, "ProtocolError") ELSE Clean(m2)
   ELSE IF k = "read1n" /\ h.s.fr = "cl" /\ h.s.ulen = h.data THEN Clean([m1 EXCEPT !.s = OrigClose(h.s)])
   ELSE Clean(m1)
 
@@ -290,7 +292,7 @@ StepAt(m) ==
          IF s.hfp /\ m.busy THEN [m EXCEPT !.s = OrigCloseNB(s), !.l.after = "CatClose2", !.l.pc = "BufWait"]
          ELSE LET s1 == OrigClose(s) IN Park([m EXCEPT !.s = IF s1.own THEN ConnClose(s1) ELSE s1], "CatRel")
     [] pc = "CatRel" ->
-         IF ~s.hfp THEN Park(Push(m, "cat"), "RelTest") ELSE ExitCatcher(m)
+         IF ~s.hfp \/ ("break:releaseearly" \in Fixes /\ m.l.clean) THEN Park(Push(m, "cat"), "RelTest") ELSE ExitCatcher(m)
     [] pc = "RelTest" ->
          IF ~s.own THEN ReturnFromRelease(m)
          ELSE LET m0 == IF "atomicrelease" \in Fixes THEN [m EXCEPT !.s.own = FALSE, !.l.arg = TRUE] ELSE m IN
@@ -312,14 +314,16 @@ StepAt(m) ==
          ReadReturn([m EXCEPT !.s.ulen = IF s.fr = "cl" /\ @ >= m.l.data THEN @ - m.l.data ELSE @])
     [] pc = "ClsBegin" ->
          LET m1 == [m EXCEPT !.s.shutset = FALSE] IN
-         IF s.hfp THEN CloseOrigThen(m1, "ClsConn") ELSE Park(m1, "ClsConn")
+         IF s.hfp /\ "break:closekeepsfp" \notin Fixes THEN CloseOrigThen(m1, "ClsConn") ELSE Park(m1, "ClsConn")
     [] pc = "ClsConn" ->
-         IF s.own THEN Park(Push([m EXCEPT !.s = ConnClose(s)], "cls"), "RelTest") ELSE ReturnFromClose(m)
+         IF s.own /\ "break:closenorelease" \in Fixes THEN ReturnFromClose([m EXCEPT !.s = ConnClose(s)])
+         ELSE IF s.own THEN Park(Push([m EXCEPT !.s = ConnClose(s)], "cls"), "RelTest") ELSE ReturnFromClose(m)
     [] pc = "ShTest" ->
          IF "shutdown" \in Fixes THEN
              \* repaired design: refused once the connection has been given back or the socket is gone, and the test
              \* and the shutdown are one step (mutually exclusive with release_conn)
-             IF ~s.shutset \/ ~s.own \/ ~s.fdopen THEN Complete(m, "err:ValueError", "value")
+             IF "break:shutdownnoop" \in Fixes /\ ~s.shutset THEN Complete(m, "ok", "none")
+             ELSE IF ~s.shutset \/ ~s.own \/ ~s.fdopen THEN Complete(m, "err:ValueError", "value")
              ELSE Complete([m EXCEPT !.s.shut = TRUE, !.s.io = "shut"], "ok", "none")
          ELSE IF ~s.shutset THEN Complete(m, "err:ValueError", "value")
          ELSE Park(m, "SockShut")
@@ -360,12 +364,12 @@ ThreadStep(t, o) == /\ CanStep(t, o)
                     /\ LET r == StepOf(t, o) IN sh' = r.s /\ th' = [th EXCEPT ![t] = r.l]
 
 \* the server delivers the rest of its reply (two-thread part only)
-CanFeed == ~Eager /\ sh.fedn = 1 /\ sh.sv # "never"
+AllDone == \A t \in Threads : th[t].pc = "Done"
+CanFeed == ~Eager /\ sh.fedn = 1 /\ sh.sv # "never" /\ ~AllDone      \* what the server sends after everybody is done is of no interest
 FeedFn(s) == [s EXCEPT !.fedn = 2, !.io = "none", !.pclosed = F2Closes(s),
                        !.kern = IF s.fdopen /\ ~s.shut /\ F2(s) # "none" THEN 1 ELSE 0]
 Feed == CanFeed /\ sh' = FeedFn(sh) /\ UNCHANGED th
 
-AllDone == \A t \in Threads : th[t].pc = "Done"
 Stuck == /\ ~AllDone /\ ~CanFeed
          /\ \A t \in Threads, o \in StepOps : ~CanStep(t, o)
 
@@ -398,10 +402,10 @@ Shared0(fr, sv, mode) ==
                    !.pclosed = (sv = "cut"), !.rcv2 = IF sv = "cut" /\ fr = "chunked" THEN "stub" ELSE "no",
                    !.slots = 1, !.puts = 1, !.nboom = IF sv = "boom" THEN 1 ELSE 0, !.nint = IF sv = "boom" THEN 1 ELSE 0]
 
-Scenarios == {x \in [fr : {"cl", "chunked", "eof"}, sv : {"ka", "close", "cut", "boom", "never"}, mode : {"stream", "preload", "preload_norel"}] :
+Scenarios == {x \in [fr : {"cl", "chunked", "eof"}, sv : {"ka", "close", "cut", "boom", "reset", "never"}, mode : {"stream", "preload", "preload_norel"}] :
                 /\ x.fr = "eof" => x.sv = "close"
                 /\ x.sv = "never" => (~Eager /\ x.fr # "eof")
-                /\ x.sv = "boom" => Eager
+                /\ x.sv \in {"boom", "reset"} => Eager
                 /\ x.mode # "stream" => Eager}
 
 InitWith(x, pa, pb) == /\ sh = Shared0(x.fr, x.sv, x.mode)
@@ -460,6 +464,11 @@ ClosedIsStable(o, o2) == /\ (o.have /\ ~o.hfp) => ~o2.hfp
                          /\ ~o.shutset => ~o2.shutset
                          /\ o.sock = "closed" => o2.sock = "closed"
                          /\ ~o.have => ~o2.have
+\* close() is final: when it returns the response is closed and detached, and (nobody else being in the middle of a
+\* call) its socket is closed unless the connection sits idle in the pool
+CloseIsFinal(o, o2) ==
+  \A t \in Threads : (Completed(o, o2, t) /\ o2.op[t] = "close" /\ o2.errk[t] = "none") =>
+      (~o2.hfp /\ ~o2.own /\ ~o2.shutset /\ (Quiet(o2) => (o2.sock = "closed" \/ (o2.pooled /\ o2.csock))))
 \* C01 at quiescence: every socket that is not idle in the pool is closed
 NoOrphanSocket(o) == (Quiet(o) /\ ~o.have) => (o.sock = "closed" \/ (o.pooled /\ o.csock))
 
@@ -473,7 +482,7 @@ StateFails(o) ==
 TransFails(o, o2) ==
   F(NoUseAfterRelease(o, o2), "NoUseAfterRelease") \cup F(ShutdownActs(o, o2), "ShutdownActs")
     \cup F(CutNeverComplete(o, o2), "CutNeverComplete") \cup F(DisposalIdempotent(o, o2), "DisposalIdempotent")
-    \cup F(ClosedIsStable(o, o2), "ClosedIsStable")
+    \cup F(ClosedIsStable(o, o2), "ClosedIsStable") \cup F(CloseIsFinal(o, o2), "CloseIsFinal")
 
 \* --------------------------------------------------------------- the same rules as TLC invariants / properties
 TypeOK == /\ \A t \in Threads : th[t].pc \in Labels
@@ -494,6 +503,7 @@ PropShutdownActs == [][ShutdownActs(Obs, ObsNext)]_vars
 PropCutNeverComplete == [][CutNeverComplete(Obs, ObsNext)]_vars
 PropDisposalIdempotent == [][DisposalIdempotent(Obs, ObsNext)]_vars
 PropClosedIsStable == [][ClosedIsStable(Obs, ObsNext)]_vars
+PropCloseIsFinal == [][CloseIsFinal(Obs, ObsNext)]_vars
 \* two-thread part: a reader blocked in recv is always released by a successful shutdown(); nobody deadlocks
 InvShutdownUnblocksReader == Stuck => sh.nshok = 0
 InvNoDeadlock == Stuck => \E t \in Threads : th[t].pc = "Recv"
